@@ -39,7 +39,7 @@ def small_scope_graphs(n_inner, self_loops):
 
 def gen_cases(tier, seed):
     cases = []
-    n = 400 if tier == "quick" else 3000
+    n = 400 if tier == "quick" else 20000
     for i in range(n):
         rng = gen.rng_for("C06c", seed, i)
         nodes, edges = gen.cyc_any(rng, 13)
